@@ -229,7 +229,7 @@ def kinds(quick):
         'StarFinder': dict(make=_finder_make('star'), reqs=fr, config=None, depth=3, subset=list(fr)),
         'DAOStarFinder_xycoords': dict(make=_finder_make('dao_xy'), reqs=fr, config=None, depth=3, subset=['img1', 'img2', 'img1_masked']),
         'IRAFStarFinder_xycoords': dict(make=_finder_make('iraf_xy'), reqs=fr, config=None, depth=3, subset=['img1', 'img2', 'img1_masked']),
-        'Ellipse': dict(make=emk, reqs=ereq, config=None, depth=2, subset=['free', 'fixcen', 'fixpa'] + ([] if quick else ['one'])),
+        'Ellipse': dict(make=emk, reqs=ereq, config=None, depth=2, subset=['free', 'fixcen', 'fixpa', 'one']),
         'GriddedPSFModel': dict(make=gmk, reqs=greq, config=None, depth=3, subset=list(greq)),
         **{f'images_{k}': dict(make=_images_setup(k)[0], reqs=_images_setup(k)[1], config=None, depth=2, subset=['model_lb', 'model', 'resid_lb', 'resid'])
            for k in ('psf', 'iter_new1', 'iter_new2', 'iter_all')},
